@@ -7,9 +7,9 @@ trap 'rm -rf "$S"' EXIT
 rsync -a --exclude .git /repo/ "$S"/repo/
 ( cd "$S"/repo && patch -p1 --no-backup-if-mismatch < "$patch" > "$S"/patch.log 2>&1 ) || { echo "PATCH FAILED"; cat "$S"/patch.log; exit 3; }
 for id in "$@"; do
-  VP_REPO="$S"/repo VP_OUT="$S"/out "$(dirname "$0")"/check "$id" --tier quick > "$S"/$id.log 2>&1
+  VP_REPO="$S"/repo VP_OUT="$S"/out "$(dirname "$0")"/check "$id" --tier quick $CHECK_ARGS > "$S"/$id.log 2>&1
   rc=$?
   echo "== $id rc=$rc: $(grep -a -c '^VIOLATION' "$S"/$id.log) violations, $(grep -a -c '^UNDECIDED' "$S"/$id.log) undecided"
-  grep -a "solver refuted" "$S"/$id.log | sed 's/\[check\] solver refuted //' | cut -c1-220 | head -6
+  grep -a "solver refuted" "$S"/$id.log | sed 's/\[check\] solver refuted //' | cut -c1-220 | head -${SHOW:-6}
   grep -a "^UNDECIDED" "$S"/$id.log | cut -c1-200 | head -3
 done
